@@ -327,5 +327,8 @@ def write_replay(pid, payload):
 
 
 def write_evidence(pid, ev):
-    os.makedirs(os.path.join(ROOT, "evidence"), exist_ok=True)
-    json.dump(ev, open(os.path.join(ROOT, "evidence", f"{pid}.json"), "w"), indent=1, default=str)
+    # VERIF_EVIDENCE_DIR: development only (runs against a deliberately broken scratch tree must not
+    # overwrite the evidence of /repo itself); registered commands never set it.
+    d = os.environ.get("VERIF_EVIDENCE_DIR") or os.path.join(ROOT, "evidence")
+    os.makedirs(d, exist_ok=True)
+    json.dump(ev, open(os.path.join(d, f"{pid}.json"), "w"), indent=1, default=str)
